@@ -220,7 +220,7 @@ func (w *walker) check(typ zed.Type, body []byte, inSet bool, depth int) *Issue 
 			if prev != nil {
 				switch c := bytes.Compare(prev, k.raw); {
 				case c == 0:
-					return bad(inSet, "map-dup", "map keys %d and %d are identical", i-1, i)
+					return bad(inSet, "map-order", "map keys %d and %d are identical", i-1, i)
 				case c > 0:
 					return bad(inSet, "map-order", "map key %d sorts before key %d", i, i-1)
 				}
@@ -580,4 +580,78 @@ func TypeValueOK(tv []byte) bool {
 	var t typeValue
 	rest, msg := t.parse(tv, 0)
 	return msg == "" && len(rest) == 0
+}
+
+// HasNullUnion reports whether some node of v whose type (under names) is a
+// union is null.  Tolerant like TypeLeaves.
+func HasNullUnion(v zed.Value) bool {
+	if v.Type() == nil {
+		return false
+	}
+	var body []byte
+	if !v.IsNull() {
+		if body = v.Bytes(); body == nil {
+			body = zcode.Bytes{}
+		}
+	}
+	return hasNullUnion(v.Type(), body, 0)
+}
+
+func hasNullUnion(typ zed.Type, body []byte, depth int) bool {
+	if depth > maxDepth || typ == nil {
+		return false
+	}
+	switch typ := typ.(type) {
+	case *zed.TypeNamed:
+		return hasNullUnion(typ.Type, body, depth+1)
+	case *zed.TypeError:
+		return hasNullUnion(typ.Type, body, depth+1)
+	case *zed.TypeUnion:
+		if body == nil {
+			return true
+		}
+		elems := splitPrefix(body)
+		if len(elems) < 2 {
+			return false
+		}
+		tag := countedVarint(elems[0].body)
+		if tag < 0 || tag >= int64(len(typ.Types)) {
+			return false
+		}
+		return hasNullUnion(typ.Types[tag], elems[1].body, depth+1)
+	}
+	if body == nil {
+		return false
+	}
+	switch typ := typ.(type) {
+	case *zed.TypeRecord:
+		for i, e := range splitPrefix(body) {
+			if i < len(typ.Fields) && hasNullUnion(typ.Fields[i].Type, e.body, depth+1) {
+				return true
+			}
+		}
+	case *zed.TypeArray:
+		for _, e := range splitPrefix(body) {
+			if hasNullUnion(typ.Type, e.body, depth+1) {
+				return true
+			}
+		}
+	case *zed.TypeSet:
+		for _, e := range splitPrefix(body) {
+			if hasNullUnion(typ.Type, e.body, depth+1) {
+				return true
+			}
+		}
+	case *zed.TypeMap:
+		for i, e := range splitPrefix(body) {
+			t := typ.KeyType
+			if i%2 == 1 {
+				t = typ.ValType
+			}
+			if hasNullUnion(t, e.body, depth+1) {
+				return true
+			}
+		}
+	}
+	return false
 }
